@@ -3,8 +3,8 @@
 Engine E2, symbolic-vs-concrete differential.  Two program families:
 
  (i)  irgen programs: straight-line and branching block sequences over the fake 32-bit architecture
-      (<= 3 blocks, <= 2 AssignBlocks per block; registers, parallel swap, memory through the two symbolic
-      bases `sp` and `a`, 8-bit partial store, read-modify-write of a cell by a non byte-aligned shift / bit field; a self loop / every 2-block loop shape executed for a bounded number of blocks);
+      (<= 3 blocks, <= 2 AssignBlocks per block, one-block programs of <= 3 (thorough 4) over a small copy alphabet; registers, parallel swap, memory through the two symbolic
+      bases `sp` and `a`, 8-bit partial store, read-modify-write of a cell by a non byte-aligned shift / bit field, word-wise memory copy read back misaligned; a self loop / every 2-block loop shape executed for a bounded number of blocks);
  (ii) the IR of every instruction of the curated vectors (test/arch/<arch>/arch.py, harvested with ast by mc/insngen)
       plus a few supplementary x86 read-modify-write forms (EXTRA_VECTORS: shifts of a memory operand by an immediate),
       lifted one instruction at a time with Machine(target).lifter at offset 0x1000.
@@ -64,6 +64,8 @@ ALPHA_9 = ["a=a+1", "swap", "zf=a==b", "a=@[sp+4]", "@[sp+4]=b", "@[a]=b", "@8[s
 ALPHA_5 = ["swap", "@[sp+4]=a", "b=@[a]", "sp=sp-4", "a=a+1"]
 ALPHA_5R = ["swap", "@[sp+4]=a", "b=@[a]", "sp=sp-4", "@[sp+4]=@[sp+4]>>4"]
 ALPHA_4 = ["swap", "@[sp+4]=a", "b=@[sp+4]", "sp=sp-4"]
+# word-wise copy a -> sp, an untouched / overwritten neighbour, misaligned reads starting inside one copied word
+ALPHA_COPY = ["@[sp+4]=@[a]", "@[sp+8]=@[a+4]", "@8[sp+5]=a", "b=@[sp+5]", "b=@[sp+6]", "r=@16[sp+7]"]
 CONDS = ["zf", "@[sp+4]", "a==b"]
 
 # (blocks, max AssignBlocks per block, alphabet, shapes: "dag" loop-free only / "all", conditions, fuel in blocks)
@@ -71,14 +73,17 @@ PLAN_IRGEN = {
     "quick": [(1, 2, ALPHA_FULL, "all", CONDS[:1], 2),
               (2, 1, ALPHA_14, "dag", CONDS[:1], 3),
               (2, 2, ALPHA_5, "dag", CONDS[:1], 3),
-              (3, 1, ALPHA_5R, "dag", CONDS, 3)],
+              (3, 1, ALPHA_5R, "dag", CONDS, 3),
+              (1, 3, ALPHA_COPY, "dag", CONDS[:1], 1)],
     "thorough": [(1, 2, ALPHA_FULL, "all", CONDS[:1], 3),
                  (1, 3, ALPHA_9, "all", CONDS[:1], 2),
                  (2, 1, ALPHA_FULL, "dag", CONDS[:1], 3),
                  (2, 1, ALPHA_5, "all", CONDS[:2], 4),
                  (2, 2, ALPHA_9, "dag", CONDS[:1], 3),
                  (3, 1, ALPHA_9, "dag", CONDS, 3),
-                 (3, 2, ALPHA_4, "dag", CONDS[:1], 3)],
+                 (3, 2, ALPHA_4, "dag", CONDS[:1], 3),
+                 (1, 4, ALPHA_COPY, "dag", CONDS[:1], 1),
+                 (3, 1, ALPHA_COPY, "dag", CONDS[:1], 3)],
 }
 PLAN_LIFTED = {
     "quick": ["x86_16", "x86_32", "x86_64", "arml", "armtl", "aarch64l", "mips32l", "ppc32b", "msp430", "mepl"],
